@@ -25,7 +25,7 @@ use std::sync::Mutex as StdMutex;
 
 // Everything of std::sync that is not modelled is std's own item: the simulator's build rewrites
 // `std::sync::` into `dmntk_verif_sync::` throughout the dmntk crates.
-pub use std::sync::{atomic, mpsc};
+pub use std::sync::mpsc;
 pub use std::sync::{Arc, Barrier, BarrierWaitResult, LockResult, PoisonError, TryLockError, TryLockResult, Weak};
 pub use SimCondvar as Condvar;
 pub use SimWaitTimeoutResult as WaitTimeoutResult;
@@ -1380,5 +1380,225 @@ impl Default for SimCondvar {
 impl fmt::Debug for SimCondvar {
   fn fmt(&self, f: &mut fmt::Formatter<'_>) -> fmt::Result {
     f.debug_struct("Condvar").finish_non_exhaustive()
+  }
+}
+
+
+// ------------------------------------------------------------------------------------------------
+// atomics: std's atomics with a scheduling point in front of every access while simulated, so that
+// a protocol built from loads and stores is interleaved between them and a spin loop lets the task
+// it is waiting for run
+// ------------------------------------------------------------------------------------------------
+
+static ST_ATOMIC_OPS: AtomicU64 = AtomicU64::new(0);
+
+/// Number of simulated atomic accesses so far.
+pub fn atomic_ops() -> u64 {
+  ST_ATOMIC_OPS.load(Ordering::Relaxed)
+}
+
+#[inline]
+fn atomic_point() {
+  if sim_active() && !std::thread::panicking() {
+    ST_ATOMIC_OPS.fetch_add(1, Ordering::Relaxed);
+    shuttle::thread::sleep(std::time::Duration::ZERO);
+  }
+}
+
+pub mod atomic {
+  use super::atomic_point;
+  pub use std::sync::atomic::{compiler_fence, fence, Ordering};
+
+  macro_rules! atomic_common {
+    ($name:ident, $std:ty, $prim:ty) => {
+      #[derive(Default)]
+      #[repr(transparent)]
+      pub struct $name($std);
+
+      impl $name {
+        pub const fn new(v: $prim) -> Self {
+          Self(<$std>::new(v))
+        }
+        pub fn get_mut(&mut self) -> &mut $prim {
+          self.0.get_mut()
+        }
+        pub fn into_inner(self) -> $prim {
+          self.0.into_inner()
+        }
+        pub fn load(&self, order: Ordering) -> $prim {
+          atomic_point();
+          self.0.load(order)
+        }
+        pub fn store(&self, v: $prim, order: Ordering) {
+          atomic_point();
+          self.0.store(v, order)
+        }
+        pub fn swap(&self, v: $prim, order: Ordering) -> $prim {
+          atomic_point();
+          self.0.swap(v, order)
+        }
+        pub fn compare_exchange(&self, current: $prim, new: $prim, success: Ordering, failure: Ordering) -> Result<$prim, $prim> {
+          atomic_point();
+          self.0.compare_exchange(current, new, success, failure)
+        }
+        pub fn compare_exchange_weak(&self, current: $prim, new: $prim, success: Ordering, failure: Ordering) -> Result<$prim, $prim> {
+          atomic_point();
+          // no spurious failure in the model: one fewer source of nondeterminism
+          self.0.compare_exchange(current, new, success, failure)
+        }
+        pub fn fetch_update<F>(&self, set_order: Ordering, fetch_order: Ordering, f: F) -> Result<$prim, $prim>
+        where
+          F: FnMut($prim) -> Option<$prim>,
+        {
+          atomic_point();
+          self.0.fetch_update(set_order, fetch_order, f)
+        }
+        pub fn as_ptr(&self) -> *mut $prim {
+          self.0.as_ptr()
+        }
+      }
+
+      impl From<$prim> for $name {
+        fn from(v: $prim) -> Self {
+          Self::new(v)
+        }
+      }
+
+      impl std::fmt::Debug for $name {
+        fn fmt(&self, f: &mut std::fmt::Formatter<'_>) -> std::fmt::Result {
+          std::fmt::Debug::fmt(&self.0, f)
+        }
+      }
+    };
+  }
+
+  macro_rules! atomic_int {
+    ($name:ident, $std:ty, $prim:ty) => {
+      atomic_common!($name, $std, $prim);
+      impl $name {
+        pub fn fetch_add(&self, v: $prim, order: Ordering) -> $prim {
+          atomic_point();
+          self.0.fetch_add(v, order)
+        }
+        pub fn fetch_sub(&self, v: $prim, order: Ordering) -> $prim {
+          atomic_point();
+          self.0.fetch_sub(v, order)
+        }
+        pub fn fetch_and(&self, v: $prim, order: Ordering) -> $prim {
+          atomic_point();
+          self.0.fetch_and(v, order)
+        }
+        pub fn fetch_nand(&self, v: $prim, order: Ordering) -> $prim {
+          atomic_point();
+          self.0.fetch_nand(v, order)
+        }
+        pub fn fetch_or(&self, v: $prim, order: Ordering) -> $prim {
+          atomic_point();
+          self.0.fetch_or(v, order)
+        }
+        pub fn fetch_xor(&self, v: $prim, order: Ordering) -> $prim {
+          atomic_point();
+          self.0.fetch_xor(v, order)
+        }
+        pub fn fetch_max(&self, v: $prim, order: Ordering) -> $prim {
+          atomic_point();
+          self.0.fetch_max(v, order)
+        }
+        pub fn fetch_min(&self, v: $prim, order: Ordering) -> $prim {
+          atomic_point();
+          self.0.fetch_min(v, order)
+        }
+      }
+    };
+  }
+
+  atomic_int!(AtomicUsize, std::sync::atomic::AtomicUsize, usize);
+  atomic_int!(AtomicIsize, std::sync::atomic::AtomicIsize, isize);
+  atomic_int!(AtomicU64, std::sync::atomic::AtomicU64, u64);
+  atomic_int!(AtomicI64, std::sync::atomic::AtomicI64, i64);
+  atomic_int!(AtomicU32, std::sync::atomic::AtomicU32, u32);
+  atomic_int!(AtomicI32, std::sync::atomic::AtomicI32, i32);
+  atomic_int!(AtomicU16, std::sync::atomic::AtomicU16, u16);
+  atomic_int!(AtomicI16, std::sync::atomic::AtomicI16, i16);
+  atomic_int!(AtomicU8, std::sync::atomic::AtomicU8, u8);
+  atomic_int!(AtomicI8, std::sync::atomic::AtomicI8, i8);
+
+  atomic_common!(AtomicBool, std::sync::atomic::AtomicBool, bool);
+  impl AtomicBool {
+    pub fn fetch_and(&self, v: bool, order: Ordering) -> bool {
+      atomic_point();
+      self.0.fetch_and(v, order)
+    }
+    pub fn fetch_nand(&self, v: bool, order: Ordering) -> bool {
+      atomic_point();
+      self.0.fetch_nand(v, order)
+    }
+    pub fn fetch_or(&self, v: bool, order: Ordering) -> bool {
+      atomic_point();
+      self.0.fetch_or(v, order)
+    }
+    pub fn fetch_xor(&self, v: bool, order: Ordering) -> bool {
+      atomic_point();
+      self.0.fetch_xor(v, order)
+    }
+    pub fn fetch_not(&self, order: Ordering) -> bool {
+      atomic_point();
+      self.0.fetch_xor(true, order)
+    }
+  }
+
+  /// `AtomicPtr` with a scheduling point in front of every access while simulated.
+  #[repr(transparent)]
+  pub struct AtomicPtr<T>(std::sync::atomic::AtomicPtr<T>);
+
+  impl<T> Default for AtomicPtr<T> {
+    fn default() -> Self {
+      Self::new(std::ptr::null_mut())
+    }
+  }
+
+  impl<T> AtomicPtr<T> {
+    pub const fn new(p: *mut T) -> Self {
+      Self(std::sync::atomic::AtomicPtr::new(p))
+    }
+    pub fn get_mut(&mut self) -> &mut *mut T {
+      self.0.get_mut()
+    }
+    pub fn into_inner(self) -> *mut T {
+      self.0.into_inner()
+    }
+    pub fn load(&self, order: Ordering) -> *mut T {
+      atomic_point();
+      self.0.load(order)
+    }
+    pub fn store(&self, p: *mut T, order: Ordering) {
+      atomic_point();
+      self.0.store(p, order)
+    }
+    pub fn swap(&self, p: *mut T, order: Ordering) -> *mut T {
+      atomic_point();
+      self.0.swap(p, order)
+    }
+    pub fn compare_exchange(&self, current: *mut T, new: *mut T, success: Ordering, failure: Ordering) -> Result<*mut T, *mut T> {
+      atomic_point();
+      self.0.compare_exchange(current, new, success, failure)
+    }
+    pub fn compare_exchange_weak(&self, current: *mut T, new: *mut T, success: Ordering, failure: Ordering) -> Result<*mut T, *mut T> {
+      atomic_point();
+      self.0.compare_exchange(current, new, success, failure)
+    }
+    pub fn fetch_update<F>(&self, set_order: Ordering, fetch_order: Ordering, f: F) -> Result<*mut T, *mut T>
+    where
+      F: FnMut(*mut T) -> Option<*mut T>,
+    {
+      atomic_point();
+      self.0.fetch_update(set_order, fetch_order, f)
+    }
+  }
+
+  impl<T> std::fmt::Debug for AtomicPtr<T> {
+    fn fmt(&self, f: &mut std::fmt::Formatter<'_>) -> std::fmt::Result {
+      std::fmt::Debug::fmt(&self.0, f)
+    }
   }
 }
